@@ -61,7 +61,8 @@ func runC28(c *an.Ctx) {
 							okSec = false
 						}
 					}
-					c.Add(okSec, "R1", typ+":closed-read-in-section:"+ch, a.Instr, "the closed flag is read inside the critical section of the send", "lockset at the test")
+					why := guardReadInSection(a.Fn, a.Instr, notClosed, lk)
+					c.Add(okSec && why == "", "R1", typ+":closed-read-in-section:"+ch, a.Instr, "the closed flag is read inside the critical section of the send "+why, "lockset at the test + no release between test and send")
 					if sel, ok := a.Instr.(*ssa.Select); ok {
 						c.Add(!sel.Blocking, "R1", typ+":send-non-blocking:"+ch, a.Instr, "the send never blocks while the mutex is held", "select shape")
 					}
